@@ -166,6 +166,13 @@ def checkNodes (prop : String) (c : Cfg) (ws : List Watcher) (top : Bool) : Nat 
         | some w =>
           if w.queued && countCalls 100000 ch != 0 then
             some s!"callback {wid} is queued but its own assignments were dispatched while it was running"
+          -- a callback is only ever entered with the batching flag off (else it would have been queued), and
+          -- runs with the flag equal to its own `queued` option: its assignments are dispatched depth-first
+          -- iff it is not queued
+          else if ch.any (fun it => match it with
+                | .stmt k _ _ _ b _ _ _ _ => k != "key" && b != w.queued
+                | _ => false) then
+            some s!"callback {wid} (queued={w.queued}) ran its statements with the batching flag {!w.queued}"
           else none
         | none => some s!"callback of unknown watcher {wid}"
       | .stmt kind p old new b tr regs ch res =>
